@@ -892,13 +892,13 @@ Corollary send_failure_judged f E ch qid h base_cb base_ret :
   single_failure f -> env_all_ok E -> heap_ok h -> fresh_qid ch qid -> env_modelled E ch ->
   exists r h', send_nolock f E ch qid h = Ok (r, h') /\
     (r_query r = None ->
-     judge_tok (mkTok qid 1 (r_cbs r) (Some (r_status r)) base_cb base_ret true false false) = []).
+     judge_tok (mkTok qid 1 (r_cbs r) (Some (r_status r)) base_cb base_ret true false false true) = []).
 Proof.
   intros Hs He Hok Hfr Hm.
   destruct (send_single_failure f E ch qid h Hs He Hok Hfr Hm) as (r & h' & Hrun & _ & Hc).
   exists r, h'. split; [exact Hrun|]. intros Hq.
   destruct Hc as [(q' & Hq' & _) | (_ & Hcb & Hst & _)]; [congruence|].
-  rewrite Hcb, Hst. unfold judge_tok, judge_status, judge_ret. cbn [t_cb t_reqs t_id t_ret t_base_cb t_base_ret t_payload_same t_partial t_after_failure length flat_map].
+  rewrite Hcb, Hst. unfold judge_tok, judge_status, judge_ret. cbn [t_cb t_reqs t_id t_ret t_base_cb t_base_ret t_payload_same t_partial t_after_failure t_same_dialogue length flat_map].
   destruct (zmem ARES_ENOMEM base_cb); destruct (opt_eqb (Some ARES_ENOMEM) base_ret); reflexivity.
 Qed.
 
